@@ -905,6 +905,8 @@ def bi_sorted(it, args, kwargs):
 
 
 def bi_reversed(it, args, kwargs):
+    if hasattr(args[0], 'pyvc_reversed'):
+        return args[0].pyvc_reversed(it)
     items = it.iter_values(args[0])
     items.reverse()
     return PyList(items)
@@ -1301,7 +1303,8 @@ def _make_builtin_module(it, full):
     elif full == 'inspect':
         A['getfullargspec'] = Builtin('inspect.getfullargspec', lambda it2, a, k: _lib_call(it2, 'inspect.getfullargspec', a, k))
     elif full == 'textwrap':
-        A['fill'] = Builtin('textwrap.fill', lambda it2, a, k: it2.fresh_str('fill'))
+        A['fill'] = Builtin('textwrap.fill', lambda it2, a, k: (_lib_call(it2, 'textwrap.fill', a, k) if it2.registry is not None and
+                                                               it2.registry.lib_hook('textwrap.fill') else it2.fresh_str('fill')))
         A['wrap'] = Builtin('textwrap.wrap', lambda it2, a, k: _lib_call(it2, 'textwrap.wrap', a, k))
     elif full == 'warnings':
         A['warn'] = Builtin('warnings.warn', lambda it2, a, k: None)
